@@ -62,6 +62,78 @@ CHECKS = {
         note="Lattice-scale coordinates only (exact arithmetic in 32-bit TLC integers); optimality is relative to "
              "the observed join scores; tie groups larger than 4 are not enumerated.",
     ),
+    "C01": dict(
+        engine="tlc-aligncore",
+        technique="TLC model checking of AlignCore.tla (composition Pairing/Segmenter/Chainer/Resolver/Row) + TLC "
+                  "batch trace validation of real Aligner.align rows and of every record of every XMAP file",
+        text="TLC exhausts the composed model of Aligner.align on small lattice inputs (2-3 seed peaks) with the "
+             "invariants C01/C04/C15/C07; the same inputs and thousands of realistic multi-peak ladders go through "
+             "the real Aligner (factory wiring) and TLC evaluates the C01 clauses on every row and replays the "
+             "composed model (chain order logged at real scale); at file level every record of every XMAP file of "
+             "the four modes on generated CMAP sets (incl. swapped / duplicated / split molecules that force joins) "
+             "is parsed independently and judged by TLC against the CMAP text.",
+        design_ref="DESIGN.md section 4 (C01), section 10",
+        note="Bounded model (lattice, <=3 peaks); real-scale evidence is sampled traces. Trusted: TLC, the "
+             "independent XMAP/CMAP text handling in harness/lib/pipeline.py.",
+    ),
+    "C02": dict(
+        engine="tlc-xmap",
+        technique="TLC model checking of Xmap.tla (record computed as the code computes it vs declarative clauses) + "
+                  "TLC batch validation of every record's text against the CMAP text",
+        text="TLC checks, for every valid matching between small maps (non-zero first label, trailing length, "
+             "decimals, both strands), that the record header computed the way AlignmentResultRow.create / "
+             "getPositionsWithSiteIds / the writer compute it satisfies the C02 clauses; end to end, every record of "
+             "every file of every mode is parsed from the XMAP text by an independent parser and TLC compares "
+             "XmapEntryID, ids, RefLen/QryLen, Ref/Qry start/end and orientation with the CMAP text, for first- and "
+             "second-pass records.",
+        design_ref="DESIGN.md section 4 (C02), section 10",
+        note="C02 clauses are evaluated on records that satisfy C01 (first/last listed pair well defined).",
+    ),
+    "C04": dict(
+        engine="tlc-aligncore",
+        technique="TLC model checking of AlignCore.tla (invariant C04) + TLC batch trace validation of real "
+                  "Aligner.align rows: offsets, scores and confidence recomputed from raw maps, peak and parameters",
+        text="Same exploration as C01 at candidate level; TLC recomputes every pair's offset from the raw maps and the "
+             "segment's seed peak, every position score from the parameters the harness passed (6-8 vectors), the "
+             "confidence as the exact sum, and checks that every label inside a segment's span is accounted for and "
+             "none is counted twice.",
+        design_ref="DESIGN.md section 4 (C04), section 10",
+        note="Exact integer arithmetic (scores multiplied by the denominator of the distance penalty multiplier).",
+    ),
+    "C15": dict(
+        engine="tlc-resolver",
+        technique="TLC batch trace validation of the real AlignmentSegmentConflictResolver against Resolver.tla "
+                  "(C15 clauses + replay of the pairwise pass); the module is model-checked inside MC_AlignCore",
+        text="Segment lists (2..10 segments) built by the real Aligner.getSegments from ladders of seed peaks on "
+             "generated label data are resolved by the real resolver; TLC checks that every output segment is a "
+             "contiguous sub-run of one input segment with the recomputed score, that no two share a label or "
+             "cross, and that pairs outside every overlap are kept, and replays the pass action by action (drift). "
+             "TLC reproduces the pinned-commit defect (MC_AlignCore_d4.cfg) as a 3-segment counter-example.",
+        design_ref="DESIGN.md section 4 (C15), section 10",
+        note="Chain order is a logged choice (decided by C14). Trusted: object-identity recording in the driver.",
+    ),
+    "C16": dict(
+        engine="tlc-vectorise",
+        technique="TLC model checking of Vectorise.tla + TLC batch trace validation of the real vectorisePositions, "
+                  "blur, toRelativeGenomicPositions and PeaksSelector.selectPeaks",
+        text="TLC exhausts the sliding-window state machine (negative starts, ends before the last label, end=0), "
+             "blur (all vectors up to length 7, radii 0..3), bin centres (resolutions 1..12) and top-N selection "
+             "with ties on small cases against the C16 clauses; the same cases and random large ones go through the "
+             "real functions and TLC judges every result.",
+        design_ref="DESIGN.md section 4 (C16), section 10",
+        note="The numerical correlation itself is not modelled (DESIGN.md section 6).",
+    ),
+    "C18": dict(
+        engine="tlc-xmap",
+        technique="TLC batch validation (Trace_Xmap, C18 clauses) of what the project's XmapReader returns for every "
+                  "file the real pipeline wrote, against the independently parsed text and the CMAP text",
+        text="Every XMAP file of every mode (incl. zero- and one-record files) is read back with the project's "
+             "reader wired as Program wires it; TLC compares each alignment with its record (ids, orientation, "
+             "HitEnum, pairs, truncated coordinates and lengths, confidence, pair coordinates from the maps); the "
+             "harness checks count and order.",
+        design_ref="DESIGN.md section 4 (C18), section 10",
+        note="Record-level model: MC_Xmap.",
+    ),
 }
 
 NOT_YET = "check not built yet in this round; planned per DESIGN.md section 4 (no technique switch)"
@@ -104,6 +176,14 @@ def main():
              "kind_free_text": "TLA+ spec (MC_/Export_/Trace_ configs) checked with TLC; harness/props/c12.py"},
             {"name": "tlc-chainer", "path": "spec/Chainer.tla", "serves_properties": ["C14"],
              "kind_free_text": "TLA+ spec (MC_/Export_/Trace_ configs) checked with TLC; harness/props/c14.py"},
+            {"name": "tlc-aligncore", "path": "spec/AlignCore.tla", "serves_properties": ["C01", "C04"],
+             "kind_free_text": "composition of the component specs; MC_AlignCore, Trace_AlignCore; harness/props/c01.py, c04.py"},
+            {"name": "tlc-resolver", "path": "spec/Resolver.tla", "serves_properties": ["C15"],
+             "kind_free_text": "Trace_Resolver; harness/props/c15.py"},
+            {"name": "tlc-xmap", "path": "spec/Xmap.tla", "serves_properties": ["C02", "C18"],
+             "kind_free_text": "MC_Xmap, Trace_Xmap; harness/props/c02.py, c18.py, pipe_common.py"},
+            {"name": "tlc-vectorise", "path": "spec/Vectorise.tla", "serves_properties": ["C16"],
+             "kind_free_text": "MC_Vectorise, Trace_Vectorise; harness/props/c16.py"},
             {"name": "tlc-row", "path": "spec/Row.tla", "serves_properties": ["C03"],
              "kind_free_text": "TLA+ spec (MC_/Export_/Trace_ configs) checked with TLC; harness/props/c03.py"},
         ],
